@@ -62,6 +62,7 @@ class Contract:
     comp_assume: dict[str, str] = field(default_factory=dict)  # comprehension target -> ASSUMED fact about every element (trusted lemma, validated at run time)
     cuts: dict[str, dict[str, str]] = field(default_factory=dict)  # straight-line cut points: {source prefix of a top-level statement: {clause name: invariant}}
     asserts: dict[str, dict[str, str]] = field(default_factory=dict)  # {source prefix of a statement: {name: clause}}: proved on every path reaching the statement, then assumed (cut rule)
+    pins: dict = field(default_factory=dict)  # module constant (a regex pattern) -> the pattern whose language it must have: L(constant°) == L(pinned°), an obligation of its own
     result_is: str | None = None  # for a PURE function: the specification expression its result equals (used where the call is implicit and element-wise, e.g. list ==)
     labels: dict[str, str] = field(default_factory=dict)  # {label: source prefix of a statement}: the state BEFORE that statement, for at(label, e) and two-heap lemma instances
     each_local: dict[str, str] = field(default_factory=dict)  # clauses over `node` AND the locals of the comprehension body (e.g. `match`): proved of the arbitrary element, not exported
